@@ -38,6 +38,11 @@ def main():
     t0 = time.time()
 
     ctx = common.Ctx(prop, tier, seed)
+    if not args.replay:
+        # replays of earlier runs of this property are stale
+        import glob
+        for f in glob.glob(os.path.join(ROOT, "replays", f"{prop}-*.json")):
+            os.remove(f)
     try:
         mod = importlib.import_module(f"checks.{prop.lower()}")
     except ModuleNotFoundError:
